@@ -545,6 +545,17 @@ class Fn:
         self._rescan()
         return n
 
+    def let_tail(self, var='out__'):
+        """R-let-tail: the tail expression E of the body becomes `let out__ = E; out__` so that a closing proof block can name the value."""
+        st = self.top_level_stmts()
+        if not st or self.mask[st[-1][1] - 1] == ';':
+            raise LostAnchor('%s: no tail expression' % self.name)
+        a, b = st[-1]
+        ind = re.match(r'[ \t]*', self.text[self.text.rfind('\n', 0, a) + 1:]).group(0)
+        self.text = self.text[:a] + 'let %s = %s;\n%s%s' % (var, self.text[a:b], ind, var) + self.text[b:]
+        self._rescan()
+        return 1
+
     # ---- anchors ---------------------------------------------------------
     def loops(self):
         """Loops in the body in order of appearance: list of dicts with
